@@ -367,6 +367,10 @@ func (c *client) Increment(i *hrpc.Mutate) (int64, error) {
 			len(r.Cells))
 	}
 
+	if l := len(r.Cells[0].Value); l != 8 {
+		return 0, fmt.Errorf("increment returned a %d bytes long value, but we expected 8", l)
+	}
+
 	val := binary.BigEndian.Uint64(r.Cells[0].Value)
 	return int64(val), nil
 }
